@@ -31,6 +31,13 @@ CLAIMED["C14"] = dict(
    ref="DESIGN.md §4 C14")
 
 
+CLAIMED["C13"] = dict(
+   text="History independence is structural, so it is decided structurally and for all histories at once: (1) closed whole-program inventory of every non-const static-storage object that is written or whose address escapes, each with a category and a frozen writer set — a new object or writer is reported; (2) the one cache that answers lookups (per zone handle) is replaced only as a whole from a single range lookup, is compared half-open and carries a full-width index; (3) the generation-counter scratch table of the character-class helpers never reuses generation 0 and is cleared when the counter restarts; (4) in every per-item loop of the nine tools each variable that lives across iterations and is modified inside is a counter, a sticky status, or provably (CFG) assigned before any use in each iteration.",
+   note="Assumes heap state is reachable only through the inventoried registries; flex/bison statics (yy*) are reset per parse; the locale tables are option state (decided by C20). Accepted loop-carried variables are listed with reasons in rules/c13.py (LOOP_OK) and in the evidence.",
+   technique="static analysis: whole-program effect inventory of static storage, cache write/compare discipline, CFG def-before-use analysis of per-item loops",
+   ref="DESIGN.md §4 C13")
+
+
 def main():
     props = [json.loads(l)["id"] for l in open(os.path.join(HERE, "properties.jsonl"))]
     checks = []
